@@ -29,15 +29,15 @@ use std::time::{Duration, Instant};
 
 /// (name, relative share of the thorough wall budget)
 const GROUPS: [(&str, u32); 9] = [
-    ("h1-server", 20),
-    ("h1-client", 16),
-    ("ws", 10),
-    ("multipart", 14),
-    ("url", 10),
-    ("headers", 16),
-    ("files", 6),
-    ("dispatcher", 5),
-    ("awc", 3),
+    ("h1-server", 25),
+    ("h1-client", 25),
+    ("ws", 15),
+    ("multipart", 8),
+    ("url", 3),
+    ("headers", 6),
+    ("files", 4),
+    ("dispatcher", 7),
+    ("awc", 7),
 ];
 
 fn build_group(name: &str) -> Option<Group> {
@@ -222,6 +222,8 @@ fn replay_inner(file: &str) -> ! {
 }
 
 fn replay_main(file: &str) -> i32 {
+    let tmp = tempfile::Builder::new().prefix("panicx-").tempdir().unwrap_or_else(|e| machinery(format!("tempdir: {e}")));
+    std::env::set_var("PANICX_TMP", tmp.path());
     let mut c = child_command(&["C19".into(), "--replay-inner".into(), file.into()]);
     let st = c.status().unwrap_or_else(|e| machinery(format!("cannot start the replay process: {e}")));
     match st.code() {
@@ -376,6 +378,8 @@ fn main() {
     let wall_cap = args.wall_s.unwrap_or(if thorough { 24 * 60 } else { 5 * 60 });
     let only: Option<Vec<String>> = std::env::var("PANICX_ONLY").ok().map(|s| s.split(',').map(str::to_string).collect());
     let tmp = tempfile::Builder::new().prefix("panicx-").tempdir().unwrap_or_else(|e| machinery(format!("tempdir: {e}")));
+    // sweep processes put their scratch files (test files of the files entry point) below it
+    std::env::set_var("PANICX_TMP", tmp.path());
 
     let mut runs: Vec<GroupRun> = Vec::new();
     let mut weight_left: u32 = GROUPS.iter().map(|g| g.1).sum();
